@@ -144,6 +144,16 @@ class Check:
         if obj.get('op') == 'fs_resolve': return fs_replay(obj.get('features') or '').ask(obj)
         return s.replay().ask(obj)
 
+    def native_fresh(s, obj, n):
+        """the same case in n fresh processes of the replay binary (fresh per-process hash seeds) -> list of answers"""
+        b = build_replay(); outs = []
+        for _ in range(n):
+            r = subprocess.run([b], input=json.dumps(obj) + '\n', stdout=subprocess.PIPE, stderr=subprocess.DEVNULL, text=True)
+            s.replayed += 1
+            try: outs.append(json.loads(r.stdout.strip().split('\n')[-1]))
+            except Exception: outs.append({'crash': True})
+        return outs
+
     # ---- results
     def part(s, name, f, *a, **kw):
         """run one part of a check; an inconclusive part does not hide violations found by other parts"""
